@@ -1,9 +1,10 @@
 (* C19 - The task configuration is honoured faithfully, with documented defaults.
-   Statements only; proofs in Proofs/InitViewFacts.v.  The scalar settings and their defaults are
+   Statements only; proofs in Proofs/InitViewFacts.v and Proofs/ConfigFacts.v.  The scalar settings and their defaults are
    per-run obligations on the source (Obl/C19_defaults.v). *)
 From stdpp Require Import gmap.
 From Coq Require Import ZArith NArith.
-From NSG Require Import Model.World Model.Load Proofs.WorldStep Proofs.WorldInv Proofs.InitViewFacts.
+From Coq Require Import String List Bool.
+From NSG Require Import Model.World Model.Load Proofs.WorldStep Proofs.WorldInv Proofs.InitViewFacts Model.Json Model.Config Proofs.ConfigFacts.
 
 (* every network, host and controlled host listed for the start position is in the initial view;
    controlled hosts are known hosts; no blocks are known at the start *)
@@ -45,8 +46,42 @@ Proof.
   - vm_compute. set_solver.
 Qed.
 
+Section ConfigModel.
+Import ListNotations.
+Open Scope string_scope.
+(* M5 (Model/Config.v): a scalar getter, described by the descriptor regenerated from utils.py, read on ANY configuration
+   tree.  A key missing from the section it belongs to (at any depth of the path) makes the getter fall back, provided it
+   catches KeyError (per-run obligation C19_all_catch_KeyError on the regenerated descriptors) ... *)
+Theorem C19_absent_fallback : forall (d : descriptor) arg cfg pre k post o,
+  map (subst arg) (d_path d) = (pre ++ k :: post)%list -> subscript cfg pre = inl (JObj o) -> jget k o = None ->
+  str_in "KeyError" (d_excs d) = true ->
+  read d arg cfg = ODefault (Config.post (d_ret d) (literal (d_default d))).
+Proof. exact read_absent_default. Qed.
+(* ... a present, convertible value is what the game uses ... *)
+Theorem C19_present_value : forall (d : descriptor) arg cfg v v',
+  subscript cfg (map (subst arg) (d_path d)) = inl v -> convert (d_conv d) v = inl v' ->
+  read d arg cfg = OVal (Config.post (d_ret d) v').
+Proof. exact read_present. Qed.
+(* ... and the only exceptions that escape a getter are those it does not catch *)
+Theorem C19_escapes : forall (d : descriptor) arg cfg e, read d arg cfg = ORaise e -> str_in e (d_excs d) = false.
+Proof. exact read_raises. Qed.
+
+(* non-vacuity: the shipped shape of a configuration; max_steps configured for the Attacker, absent for the Defender *)
+Example C19_model_nonvacuous :
+  let cfg := JObj [("env", JObj [("required_players", JNum 2); ("rewards", JObj [("step", JNum (-1))])]);
+                   ("coordinator", JObj [("agents", JObj [("Attacker", JObj [("max_steps", JNum 25)]); ("Defender", JObj [])])])] in
+  let g_ms : descriptor := ("get_max_steps", ["coordinator"; "agents"; "<role>"; "max_steps"], "int", "None", ["KeyError"; "TypeError"], "max_steps") in
+  let g_rw : descriptor := ("get_rewards", ["env"; "rewards"; "<name>"], "", "0", ["KeyError"], "rewards") in
+  read g_ms "Attacker" cfg = OVal (JNum 25) /\ read g_ms "Defender" cfg = ODefault JNull /\ read g_ms "Benign" cfg = ODefault JNull /\
+  read g_rw "step" cfg = OVal (JNum (-1)) /\ read g_rw "fail" cfg = ODefault (JNum 0).
+Proof. vm_compute. repeat split; reflexivity. Qed.
+End ConfigModel.
+
 Print Assumptions C19_view.
 Print Assumptions C19_wildcards.
 Print Assumptions C19_all_local_all.
 Print Assumptions C19_all_local.
 Print Assumptions C19_own_nets.
+Print Assumptions C19_absent_fallback.
+Print Assumptions C19_present_value.
+Print Assumptions C19_escapes.
